@@ -69,3 +69,18 @@ let () =
              "{\"r\":\"ok\",\"tokens\":" ^ jlist (fun (ty, tx) -> "[" ^ jname ty ^ "," ^ jlist (fun c -> string_of_int (int_of_n c)) tx ^ "]") toks ^ "}"
          | None -> "{\"r\":\"fuel\"}")
     | _ -> raise (Bad "pyg"))
+
+(* C04: single-line string literals: (str1 q (cps of the string) (cps of a literal)) *)
+let () =
+  register "str1" (function
+    | L [ _; q; L cps; L lit ] ->
+        let q = n_of_int (as_int q) in
+        let s = List.map (fun c -> n_of_int (as_int c)) cps in
+        let lit = List.map (fun c -> n_of_int (as_int c)) lit in
+        let printed = print_single q s in
+        let body = (match lit with [] -> [] | _ :: t -> (match List.rev t with [] -> [] | _ :: r -> List.rev r)) in
+        "{\"r\":\"ok\",\"exact\":" ^ (if single_exact s then "true" else "false")
+        ^ ",\"printed\":" ^ jtext printed ^ ",\"read_printed\":" ^ jtext (read_single printed)
+        ^ ",\"read_lit\":" ^ jtext (read_single lit)
+        ^ ",\"lit_lexes\":" ^ (if lex_body q body then "true" else "false") ^ "}"
+    | _ -> raise (Bad "str1"))
